@@ -81,6 +81,16 @@ Theorem C05_switch_frame : forall Y bs idx vf om xs y xs' c,
 Proof. exact switch_frame. Qed.
 Print Assumptions C05_switch_frame.
 
+(* ... and the lifted call does not fail on its own: when every branch runs through on the scope it is given and all branches
+   leave the mutable collections in one structure (what lax.cond / lax.switch demand), it succeeds *)
+Theorem C05_switch_total : forall Y bs idx vf om xs, bs <> [] ->
+  (forall b, In b bs -> exists y gs, branch_out Y om vf xs b = Some (y, gs)) ->
+  (forall b b' y gs y' gs', In b bs -> In b' bs -> branch_out Y om vf xs b = Some (y, gs) -> branch_out Y om vf xs b' = Some (y', gs') ->
+     cshape (concat gs) = cshape (concat gs')) ->
+  exists y xs', lift_switch Y bs idx vf om xs = POk Y y xs'.
+Proof. exact switch_total. Qed.
+Print Assumptions C05_switch_total.
+
 (* while_loop with broadcast_variables=True equals the Python loop on the scope in which the body may mutate exactly the
    carried collections the caller may mutate: same final carry, same variables afterwards; for every condition and body that
    observe variables entry by entry and leave immutable collections alone, every trip count *)
